@@ -47,6 +47,7 @@ type refBox struct {
 	payloads map[sim.ID][]byte
 	poisonBy map[sim.ID]bool // every sender with two different payloads under this id
 	poisoned bool
+	alt      map[sim.ID][]byte // the conflicting payload last seen per sender
 }
 
 type refRouter struct {
@@ -97,6 +98,10 @@ func (r *refRouter) deposit(from sim.ID, cid string, payload []byte) string {
 			b.poisonBy = map[sim.ID]bool{}
 		}
 		b.poisoned, b.poisonBy[from] = true, true
+		if b.alt == nil {
+			b.alt = map[sim.ID][]byte{}
+		}
+		b.alt[from] = payload
 		return "poisoned"
 	}
 	b.payloads[from] = payload
@@ -212,6 +217,62 @@ type routerRun struct {
 	faultKinds map[string]bool
 	conflicts int
 	injN    uint64
+
+	fine     bool
+	fh       any
+	hist     []hRecord
+	pendDeps map[sim.ID][]*hRecord
+	noHist   map[sim.ID]bool
+	recvRec  map[*rOp]*hRecord
+}
+
+func (rr *routerRun) callStamp() int64 { return int64(2 * rr.cl.Step) }
+func (rr *routerRun) retStamp() int64  { return int64(2*rr.cl.Step - 1) }
+
+// closeDeposits: a deposit interval ends when the reader is back in Delivery.Receive.
+func (rr *routerRun) closeDeposits(final bool) {
+	for _, id := range rr.ids {
+		if len(rr.pendDeps[id]) == 0 {
+			continue
+		}
+		if final || rr.cl.Net.ReaderWaiting(id) {
+			for _, r := range rr.pendDeps[id] {
+				r.op.Return = rr.retStamp()
+				if final {
+					r.op.Return = int64(2*rr.cl.Step + 2)
+				}
+				rr.hist = append(rr.hist, *r)
+			}
+			rr.pendDeps[id] = nil
+		}
+	}
+}
+
+func (rr *routerRun) recordReturn(op *rOp) {
+	r := rr.recvRec[op]
+	if r == nil {
+		return
+	}
+	delete(rr.recvRec, op)
+	out := hOut{}
+	switch {
+	case op.err == nil:
+		out.OK = true
+		out.Payloads = map[sim.ID]string{}
+		for k, v := range op.result {
+			out.Payloads[k] = string(v)
+		}
+	case errs.Is(op.err, network.ErrDuplicateMessage):
+		out.ErrKind, out.Blame = "dup", blamed(op.err)
+	case errors.Is(op.err, context.Canceled) || strings.Contains(op.err.Error(), context.Canceled.Error()):
+		out.ErrKind = "cancelled"
+	default:
+		out.ErrKind = "other"
+		rr.noHist[op.party] = true
+	}
+	r.op.Output = out
+	r.op.Return = rr.retStamp()
+	rr.hist = append(rr.hist, *r)
 }
 
 func pickIDs(r *rand.Rand, n int) []sim.ID {
@@ -240,18 +301,51 @@ func pickIDs(r *rand.Rand, n int) []sim.ID {
 }
 
 // RunRouterMacro is workload C11/router-macro.
-func RunRouterMacro(rc *harness.RunCtx) (out harness.Outcome) {
+func RunRouterMacro(rc *harness.RunCtx) harness.Outcome { return runRouterWorkload(rc, false) }
+
+// RunRouterFine is workload C11/router-fine (needs the instrumented router: build tag finestep).
+func RunRouterFine(rc *harness.RunCtx) harness.Outcome {
+	if !fineAvailable {
+		return harness.Outcome{Skipped: true, Class: "router-fine unavailable in this binary"}
+	}
+	return runRouterWorkload(rc, true)
+}
+
+func runRouterWorkload(rc *harness.RunCtx, fineMode bool) (out harness.Outcome) {
+	var hist []hRecord
+	var noHist map[sim.ID]bool
 	synctest.Test(rc.T, func(t *testing.T) {
-		out = runRouterMacro(rc)
+		out, hist, noHist = runRouter(rc, fineMode)
 	})
+	if out.Violation == nil && out.HarnessErr == nil && !out.Skipped {
+		// history oracle (outside the bubble: the checker uses real timers)
+		var use []hRecord
+		for _, r := range hist {
+			if !noHist[r.party] {
+				use = append(use, r)
+			}
+		}
+		illegal, unknown, checked := checkHistories(use)
+		if out.Probes != nil {
+			out.Probes["histories_checked"] += checked
+			out.Probes["histories_inconclusive"] += unknown
+		}
+		if illegal != "" {
+			out.Violation = &harness.Violation{Class: "history-not-linearizable", Site: "router", Detail: illegal}
+		}
+	}
 	return out
 }
 
-func runRouterMacro(rc *harness.RunCtx) harness.Outcome {
+func runRouter(rc *harness.RunCtx, fineMode bool) (harness.Outcome, []hRecord, map[sim.ID]bool) {
 	w := rc.Seed.Sub("workload").Rand()
 	n := 2 + w.IntN(4)
 	ids := pickIDs(w, n)
-	rr := &routerRun{rc: rc, ids: ids, routers: map[sim.ID]*network.Router{}, model: map[sim.ID]*refRouter{}, byFull: map[string]*rExchange{}, closed: map[sim.ID]string{}, probes: map[string]int{}, faultKinds: map[string]bool{}}
+	rr := &routerRun{rc: rc, ids: ids, routers: map[sim.ID]*network.Router{}, model: map[sim.ID]*refRouter{}, byFull: map[string]*rExchange{}, closed: map[sim.ID]string{}, probes: map[string]int{}, faultKinds: map[string]bool{},
+		pendDeps: map[sim.ID][]*hRecord{}, noHist: map[sim.ID]bool{}, recvRec: map[*rOp]*hRecord{}, fine: fineMode}
+	if fineMode {
+		rr.fh = fineInstall()
+	}
 	cl := sim.NewCluster(rc.Seed, ids)
 	rr.cl = cl
 	cl.Policy = sim.Policy(w.IntN(6))
@@ -264,6 +358,12 @@ func runRouterMacro(rc *harness.RunCtx) harness.Outcome {
 	}
 	if w.IntN(5) == 0 { // fault-free configuration, reported separately
 		rr.faultKinds = map[string]bool{}
+	}
+	if fineMode {
+		// router failures are the macro-step workload's subject; here the history oracle needs live routers
+		delete(rr.faultKinds, "close")
+		delete(rr.faultKinds, "terr")
+		cl.MaxSteps = 30000
 	}
 	fm := sim.FaultMix{Budget: 1 + w.IntN(8)}
 	if rr.faultKinds["dup"] {
@@ -413,6 +513,13 @@ func runRouterMacro(rc *harness.RunCtx) harness.Outcome {
 		}
 		res := rr.model[m.To].deposit(m.From, env.CorrelationID, env.Payload)
 		rr.probes["deposit_"+res]++
+		if rr.model[m.To].fatal == "" {
+			rec := &hRecord{party: m.To, cid: env.CorrelationID}
+			rec.op.Input = hIn{Kind: "dep", From: m.From, Member: rr.model[m.To].quorum[m.From], Payload: string(env.Payload)}
+			rec.op.Call = rr.callStamp()
+			rec.op.Output = hOut{}
+			rr.pendDeps[m.To] = append(rr.pendDeps[m.To], rec)
+		}
 		if kind == "redeliver" && res == "stored" {
 			rr.probes["duplicate_after_consumption_buffered"]++
 		}
@@ -426,8 +533,9 @@ func runRouterMacro(rc *harness.RunCtx) harness.Outcome {
 	var ie *sim.InvariantError
 	if res.Err != nil && !errors.As(res.Err, &ie) {
 		rr.shutdown()
-		return harness.Outcome{HarnessErr: res.Err}
+		return harness.Outcome{HarnessErr: res.Err}, nil, nil
 	}
+	rr.closeDeposits(true)
 	if rr.viol == nil && !cl.Stats.CapHit {
 		rr.finalChecks()
 	}
@@ -450,7 +558,14 @@ func runRouterMacro(rc *harness.RunCtx) harness.Outcome {
 		}
 	}
 	sample := map[string]any{"workload": "router-macro", "config": class, "ids": ids, "exchanges": exchStrings(rr.exch), "trace_head": head(cl.Trace, 25), "steps": cl.Stats.Steps}
-	return harness.Outcome{Violation: rr.viol, Class: class, NonTrivial: cl.Stats.NonFIFO > 0 || nfaults > 0, Trace: cl.Trace, Stats: cl.Stats, Probes: rr.probes, Sample: sample}
+	if fineMode {
+		class = "fine " + class
+		steps, sites := fineStats(rr.fh)
+		rr.probes["fine_task_steps"] += steps
+		rr.probes["fine_distinct_sites_hit"] += len(sites)
+		sample["workload"] = "router-fine"
+	}
+	return harness.Outcome{Violation: rr.viol, Class: class, NonTrivial: cl.Stats.NonFIFO > 0 || nfaults > 0 || fineMode, Trace: cl.Trace, Stats: cl.Stats, Probes: rr.probes, Sample: sample}, rr.hist, rr.noHist
 }
 
 func exchStrings(xs []*rExchange) []string {
@@ -469,6 +584,13 @@ func head(s []string, n int) []string {
 }
 
 func (rr *routerRun) shutdown() {
+	if rr.fine {
+		for _, t := range rr.cl.Tasks {
+			t.Cancel()
+		}
+		fineUninstall() // releases parked tasks; from here on the router runs uninstrumented
+		synctest.Wait()
+	}
 	for _, id := range rr.ids {
 		rr.routers[id].Close()
 	}
@@ -493,6 +615,7 @@ func (rr *routerRun) extraEvents(cl *sim.Cluster) []sim.Event {
 		op := c.ops[c.pos]
 		evs = append(evs, sim.Event{Key: fmt.Sprintf("start %s#%d", op.id, op.attempt), Kind: "start", Apply: func(cl *sim.Cluster) error {
 			op.started, op.returned, op.cancelled = true, false, false
+			op.cancel = nil
 			op.invokeStep = cl.Step
 			op.fatalAtInvoke = rr.model[op.party].fatal
 			if op.recv {
@@ -502,6 +625,10 @@ func (rr *routerRun) extraEvents(cl *sim.Cluster) []sim.Event {
 				} else {
 					rr.probes["recv_invoked_before_arrival"]++
 				}
+				rec := &hRecord{party: op.party, cid: op.ex.full()}
+				rec.op.Input = hIn{Kind: "recv", Froms: append([]sim.ID(nil), op.peers...), OpID: fmt.Sprintf("%s#%d", op.id, op.attempt)}
+				rec.op.Call = rr.callStamp()
+				rr.recvRec[op] = rec
 			}
 			c.start <- struct{}{}
 			return nil
@@ -510,9 +637,13 @@ func (rr *routerRun) extraEvents(cl *sim.Cluster) []sim.Event {
 	// fault events
 	for _, op := range rr.ops {
 		op := op
-		if op.recv && op.started && !op.returned && !op.cancelled && rr.faultKinds["cancel"] {
+		if op.recv && op.started && !op.returned && !op.cancelled && op.cancel != nil && rr.faultKinds["cancel"] {
 			evs = append(evs, sim.Event{Key: fmt.Sprintf("cancel %s#%d", op.id, op.attempt), Kind: "cancel", Fault: true, Apply: func(cl *sim.Cluster) error {
 				op.cancelled = true
+				crec := hRecord{party: op.party, cid: op.ex.full()}
+				crec.op.Input = hIn{Kind: "cancel", OpID: fmt.Sprintf("%s#%d", op.id, op.attempt)}
+				crec.op.Call, crec.op.Return, crec.op.Output = rr.callStamp(), rr.callStamp(), hOut{}
+				rr.hist = append(rr.hist, crec)
 				if len(rr.model[op.party].box(op.ex.full()).payloads) > 0 {
 					rr.probes["cancel_with_partial_mailbox"]++
 				}
@@ -529,6 +660,7 @@ func (rr *routerRun) extraEvents(cl *sim.Cluster) []sim.Event {
 		if rr.faultKinds["close"] {
 			evs = append(evs, sim.Event{Key: fmt.Sprintf("close %d", id), Kind: "close", Fault: true, Apply: func(cl *sim.Cluster) error {
 				rr.closed[id] = "closed"
+				rr.noHist[id] = true
 				rr.model[id].fatal = "closed"
 				rr.routers[id].Close()
 				return nil
@@ -537,6 +669,7 @@ func (rr *routerRun) extraEvents(cl *sim.Cluster) []sim.Event {
 		if rr.faultKinds["terr"] && cl.Net.ReaderWaiting(id) {
 			evs = append(evs, sim.Event{Key: fmt.Sprintf("terr %d", id), Kind: "terr", Fault: true, Apply: func(cl *sim.Cluster) error {
 				rr.closed[id] = "terr"
+				rr.noHist[id] = true
 				rr.model[id].fatal = "terr"
 				if !cl.Net.FailTransport(id) {
 					return fmt.Errorf("no reader to fail at %d", id)
@@ -570,6 +703,9 @@ func (rr *routerRun) extraEvents(cl *sim.Cluster) []sim.Event {
 				return nil
 			}})
 		}
+	}
+	if rr.fine {
+		evs = append(evs, fineEvents(rr.fh)...)
 	}
 	return evs
 }
@@ -643,6 +779,10 @@ func blamed(err error) []sim.ID {
 
 // invariant runs at every quiescent state.
 func (rr *routerRun) invariant(cl *sim.Cluster) error {
+	rr.closeDeposits(false)
+	if rr.fine {
+		return rr.invariantFine(cl)
+	}
 	for _, c := range rr.clients {
 		if c.pos >= len(c.ops) {
 			continue
@@ -666,6 +806,9 @@ func (rr *routerRun) invariant(cl *sim.Cluster) error {
 		}
 		// the attempt returned during the last step: compare with the model
 		op.returnStep = cl.Step
+		if op.recv {
+			rr.recordReturn(op)
+		}
 		if !op.recv {
 			if op.err != nil {
 				rr.fail("send-failed", fmt.Sprintf("SendTo of %s failed: %v", op.id, op.err))
@@ -818,4 +961,123 @@ func (rr *routerRun) finalChecks() {
 		}
 		rr.probes["blocked_legitimately_at_end"]++
 	}
+}
+
+// invariantFine is the fine-step oracle. Deposits and receives overlap here,
+// so per-operation comparison with an eagerly updated model is not sound; the
+// checks are: (1) direct exactness of every returned payload, (2) every
+// failure has a cause in the trace, (3) at a fully quiescent state (no task
+// parked at a scheduling point, so no wake-up can still be on its way) no
+// receive is blocked whose set is complete, (4) the history oracle afterwards.
+func (rr *routerRun) invariantFine(cl *sim.Cluster) error {
+	for _, c := range rr.clients {
+		if c.pos >= len(c.ops) {
+			continue
+		}
+		op := c.ops[c.pos]
+		if !op.started || !op.returned {
+			continue
+		}
+		op.returnStep = cl.Step
+		if !op.recv {
+			if op.err != nil {
+				rr.fail("send-failed", fmt.Sprintf("SendTo of %s failed: %v", op.id, op.err))
+				return errors.New("violation")
+			}
+			op.done = true
+			c.pos++
+			continue
+		}
+		rr.recordReturn(op)
+		model := rr.model[op.party]
+		if op.err == nil {
+			if len(op.result) != len(op.peers) {
+				rr.fail("wrong-sender-set", fmt.Sprintf("receive %s returned %d payloads for %d requested senders", op.id, len(op.result), len(op.peers)))
+				return errors.New("violation")
+			}
+			for _, f := range op.peers {
+				got, ok := op.result[f]
+				if !ok {
+					rr.fail("wrong-sender-set", fmt.Sprintf("receive %s: no payload for requested sender %d", op.id, f))
+					return errors.New("violation")
+				}
+				if rr.conflicts == 0 {
+					want := rPayload(f, op.party, op.ex.full(), padOf(got))
+					if !bytes.Equal(got, want) {
+						rr.fail("unattributable-payload", fmt.Sprintf("receive %s: payload %q is not what %d sent to %d under %q", op.id, trunc(got), f, op.party, op.ex.full()))
+						return errors.New("violation")
+					}
+				}
+			}
+			// Deposits and receives overlap in fine-step mode. The eager model applied a
+			// conflicting deposit at hand-over time; a receive that nevertheless returned
+			// the sender's first payload was linearised before that deposit, which the
+			// router then stored as a fresh payload. Re-align the model with the observed
+			// order (the history oracle judges whether the observed outcome is legal).
+			bx := model.box(op.ex.full())
+			model.consume(op.ex.full(), op.peers)
+			for _, f := range op.peers {
+				if bx.poisonBy[f] {
+					delete(bx.poisonBy, f)
+					bx.payloads[f] = bx.alt[f]
+					rr.probes["model_realigned_consume_before_conflict"]++
+				}
+			}
+			if len(bx.poisonBy) == 0 {
+				bx.poisoned = false
+			}
+			if op.attempt > 0 {
+				rr.probes["retry_after_cancel_completed"]++
+			}
+			rr.probes["recv_ok"]++
+			op.done = true
+			c.pos++
+			continue
+		}
+		switch {
+		case errs.Is(op.err, network.ErrDuplicateMessage):
+			if rr.conflicts == 0 {
+				rr.fail("spurious-duplicate-error", fmt.Sprintf("receive %s failed with a duplicate-message error although no conflicting message was ever sent: %v", op.id, op.err))
+				return errors.New("violation")
+			}
+			rr.probes["conflict_poisoned_receive"]++
+			op.done = true
+			c.pos++
+		case errors.Is(op.err, context.Canceled) || strings.Contains(op.err.Error(), context.Canceled.Error()):
+			if !op.cancelled {
+				rr.fail("spurious-cancel", fmt.Sprintf("receive %s returned a cancellation error although its context was never cancelled", op.id))
+				return errors.New("violation")
+			}
+			rr.probes["recv_cancelled"]++
+			op.attempt++
+			op.started = false
+		default:
+			rr.fail("unexplained-error", fmt.Sprintf("receive %s failed with %v although the router never failed", op.id, op.err))
+			return errors.New("violation")
+		}
+	}
+	if fineParked(rr.fh) == 0 {
+		rr.probes["fully_quiescent_states"]++
+		for _, c := range rr.clients {
+			if c.pos >= len(c.ops) {
+				continue
+			}
+			op := c.ops[c.pos]
+			if !op.started || op.returned || !op.recv {
+				continue
+			}
+			if v := rr.model[op.party].evaluate(op.ex.full(), op.peers, op.cancelled); v.ready {
+				rr.fail("lost-wakeup", fmt.Sprintf("receive %s (cid %q from %v) is blocked in its select at a fully quiescent state (no task at a scheduling point) although it must return (%s); tasks: %s; trace tail: %v", op.id, op.ex.full(), op.peers, verdictString(v), fineDump(rr.fh), tailStr(cl.Trace, 12)))
+				return errors.New("violation")
+			}
+		}
+	}
+	return nil
+}
+
+func tailStr(s []string, n int) []string {
+	if len(s) > n {
+		return s[len(s)-n:]
+	}
+	return s
 }
